@@ -481,6 +481,9 @@ def iterator_rules(ctx):
                 # updated in the same step or the link was rewritten through prev
                 stores_via_prev = [e for e in flow.find(fn, {"k": "call"}) if fn.atomic(e) and fn.atomic(e)["op"] == "store" and "prev" in fn.expr(fn.kids(e)[0])]
                 ok = any(fn.before(p, x) or fn.before(x, p) for p in prev_sets) or any(fn.before(s, x) for s in stores_via_prev)
+                if not ok and prev_sets:
+                    # prev assigned in every branch that leads here (no single assignment dominates), or the node is read THROUGH prev itself
+                    ok = flow.must_pass(fn, x, prev_sets)[0] or flow.has_src(fn, fn.kids(x)[1], "field:prev")
                 ctx.check(ok, rid2, pat + "#extension-with-prev@L-rel%d" % ext_sets.index(x), "extension set together with prev",
                           "iterator::extension is set (to %s) on a path where iterator::prev is not set to the link holding it: erase(iterator&) "
                           "dereferences a stale/null prev" % rhs, fn.where(x), fn=fn)
